@@ -347,7 +347,7 @@ def _ends_eq(T):
 
 def g_assign_targets(T):
     if _blank(T):
-        return []
+        return [] if '#' not in T else None    # a statement head: comments cannot be inside it
     if not _ends_eq(T):
         return None     # the implementation (and its tests) require the trailing '='; the Mode docstring calls it optional
     m = _p('_ = ' + T + ' _')
@@ -1345,3 +1345,83 @@ def phrase_frags(family, T):
                         continue
         out.append(Frag(mode, 'phrase:' + family, T, l0, c0, nodes, CONTAINERS.get(mode)))
     return out
+
+
+# ---------------------------------------------------------------------------------------------------------------------
+# deterministic product: representative single elements of every single-element mode x every layout prefix/suffix
+# (lead comment, continuation first line, blank line, leading blanks, trailing comment ...), judged by the gates
+
+SINGLE_ATOMS = {
+    'withitem': ['a', 'f("é") as b', '(lock := get_lock())', '(yield)', '(yield from g())', '(a, b) as c', '(é := 1) as ü', '(a) as b', 'a as (b, c)'],
+    'type_param': ['T', 'U: "é"', '*Ts', '**P', 'V: (int, "ü")'],
+    'keyword': ['k=v', '**d', 'é="ü"', 'k=(yield)', 'k=(x := 1)'],
+    'arg': ['a', 'b: "é"', 'c: list[int]'],
+    '_arglike': ['a', '*a', '*not a', 'k=v', '**d', '"é"', '(x for x in y)', 'x := 1', '*a or "é"'],
+    'expr_arglike': ['a', '*a', '*not a', '"é" + b', '(yield)', 'x := 1', '(x for x in y)'],
+    'expr': ['a', '*a', '"é" + b', '(yield)', 'yield', 'yield from é', 'lambda: é', 'a if b else "ü"', 'x := 1', 'a,', 'not a', '(a)', '[é for é in ü]',
+             'await é', 'f"{é}"', '"é" "ü"', '...', '-1'],
+    'expr_slice': ['a', 'a:b', ':', '"é":ü', '*a', 'a, b:c', '::é', 'x := 1'],
+    'expr_all': ['a', 'a:b', '*a', '*not a', 'a, b:c', '*a,', '"é"', 'yield'],
+    'Tuple_elt': ['a', 'a:b', '*a', '*not a', '"é"', 'a, b'],
+    'Tuple': ['a,', 'a, "é"', 'a:b, c', '*not a,', '(a, b)', '()'],
+    'pattern': ['1', '"é"', 'x', '*_', 'C(a, b=1)', '1 | 2', '"é" as y', '{"k": v}', 'a, b', '[a, *b]', '(x)', 'None', '-1', 'a.b', 'a,'],
+    'comprehension': ['for a in b', 'async for é in ü if c', 'for a, b in c if d if e', 'for a in lambda: b'],
+    'alias': ['a', 'a.b as c', 'é as ü', '*'],
+    'Import_name': ['a', 'a.b as c', 'é as ü'],
+    'ImportFrom_name': ['a', 'a as b', '*', 'é'],
+    'arguments': ['a, b=1', '*a, **k', 'a: "é", /, b', '', 'a, *, b: int = "ü"'],
+    'arguments_lambda': ['a, b=1', '*a, **k', 'é, /, ü', ''],
+    'ExceptHandler': ['except: pass', 'except E as é: pass', 'except (A, B):\n    pass', 'except* E: pass'],
+    'match_case': ['case 1: pass', 'case "é" as y if y:\n    pass', 'case [a, *b]: pass'],
+    'stmt': ['a = 1', 'if a:\n    pass', '@d\ndef f(): pass', 'é = "ü"', 'x: int = 1', 'import a'],
+    'operator': ['+', '**', '//', '@', '>>'], 'unaryop': ['not', '~', '-'], 'cmpop': ['is not', 'not in', '<=', 'is', 'in'], 'boolop': ['and', 'or'],
+    '_arglikes': ['a, *b, k=v, **d', '"é", ü="ñ"', ''], '_withitems': ['a as b, (c := 1)', 'f("é") as é, g', '(yield)', ''],
+    '_type_params': ['T, *Ts, **P', 'U: "é"', ''], '_decorator_list': ['@a', '@é("ü")\n@b', ''], '_Assign_targets': ['a =', 'é = ü.x = a[0] =', ''],
+    '_comprehensions': ['for a in b for c in d', 'for é in ü if a', ''], '_comprehension_ifs': ['if a', 'if "é" if b', ''],
+    '_aliases': ['a, b.c as d', 'é as ü', '*', ''], '_Import_names': ['a, b.c as d', ''], '_ImportFrom_names': ['a, b as c', '*', ''],
+    '_pattern_attrlikes': ['a, "é", k=1', 'k=v', ''], '_ExceptHandlers': ['except A: pass\nexcept: pass', ''], '_match_cases': ['case 1: pass\ncase _: pass', ''],
+}
+SINGLE_ORIGIN = {'pattern': (3, 0), '_pattern_attrlikes': (3, 0), 'alias': None, 'Import_name': (1, 7), 'ImportFrom_name': (1, 14), 'ExceptHandler': (2, 0),
+                 '_ExceptHandlers': (2, 0), 'match_case': (2, 1), '_match_cases': (2, 1), 'stmt': (1, 0), '_decorator_list': (1, 0), '_Assign_targets': (1, 4),
+                 '_aliases': None, '_Import_names': (1, 7), '_ImportFrom_names': (1, 14), 'operator': (1, 0), 'unaryop': (1, 0), 'cmpop': (1, 0), 'boolop': (1, 0)}
+SINGLE_CONTAINER = {'_arglikes': ('_arglikes', 'arglikes'), '_withitems': ('_withitems', 'items'), '_type_params': ('_type_params', 'type_params'),
+                    '_decorator_list': ('_decorator_list', 'decorator_list'), '_Assign_targets': ('_Assign_targets', 'targets'),
+                    '_comprehensions': ('_comprehensions', 'generators'), '_comprehension_ifs': ('_comprehension_ifs', 'ifs'),
+                    '_aliases': ('_aliases', 'names'), '_Import_names': ('_aliases', 'names'), '_ImportFrom_names': ('_aliases', 'names'),
+                    '_pattern_attrlikes': ('_pattern_attrlikes', None), '_ExceptHandlers': ('_ExceptHandlers', 'handlers'),
+                    '_match_cases': ('_match_cases', 'cases')}
+
+
+def single_frag(mode, T):
+    """Frag for the atom T in `mode` (expected nodes = the must-gate's nodes in template coordinates) or None"""
+    g = gate(mode, T, 'must')
+    if g is None:
+        return None
+    org = SINGLE_ORIGIN.get(mode, (2, 0))
+    if org is None:                       # alias / _aliases: which template accepted it
+        org = (1, 7) if (g_import_names(T) is not None) else (1, 14)
+    l0, c0 = org
+    cont = SINGLE_CONTAINER.get(mode)
+    if mode in ('operator', 'unaryop', 'cmpop', 'boolop'):
+        return Frag(mode, 'atom', T, 1, 0, g, None, opcls=type(g[0]))
+    nodes = g
+    if cont is None:
+        if len(g) != 1:
+            return None
+        if mode in ('expr', 'Tuple', 'expr_all', 'Tuple_elt') and isinstance(g[0], ast.Tuple) and g[0].lineno == 1:
+            s = g_slice(T)          # undelimited tuple: location from the subscript embedding
+            if s is None or dump(s[0], False) != dump(g[0], False):
+                return None
+            nodes = s
+        if mode == 'pattern' and isinstance(g[0], ast.MatchSequence) and g[0].lineno == 2:
+            ext = _tok_extent(T)
+            if ext is None:
+                return None
+            n2 = copy.copy(g[0])
+            n2.lineno, n2.col_offset = ext[0][0] + 2, ext[0][1]
+            n2.end_lineno, n2.end_col_offset = ext[1][0] + 2, ext[1][1]
+            nodes = [n2]
+    fr = Frag(mode, 'atom', T, l0, c0, nodes, cont)
+    if mode in ('match_case', '_match_cases'):
+        fr.dedent = 1
+    return fr
